@@ -1,4 +1,6 @@
 import OutlineModel.Proofs.NatInv
+import OutlineModel.Proofs.UDP
+import OutlineModel.Proofs.TieValidatePacket
 import OutlineModel.Model.UDPRun
 /-
 C04 — UDP associations give each client one stable, private outbound socket.
@@ -175,5 +177,126 @@ example :
     let res : Target → Resolved := fun t => match t with | .v4 ip _ => .ip ip | .v6 ip _ => .ip ip | .domain _ _ => .fail
     let ops := [UDP.Op.pkt "a:1" (some 1) 60 [0] plain res, UDP.Op.pkt "b:1" (some 2) 60 [0] plain res]
     ((run c (UDP.init l) ops).nat.map (·.sock)) = [1, 0] := by decide
+
+/-- the status a verdict of the target IP validator is reported with -/
+def verdictStatus : IP.Verdict → String
+  | .ok => "OK" | .invalid => "ERR_ADDRESS_INVALID" | .priv => "ERR_ADDRESS_PRIVATE"
+
+/-- how the model's collaborators are read off the code's: SplitAddr returns the header prefix the model's length
+    function measures; the resolver fails where the model's does (or where the header does not decode) and otherwise
+    returns an address with the model's IP; the validator stored in the handler, seen through ensureConnectionError,
+    is the model's verdict -/
+structure Agrees (validate : List UInt8 → IP.Verdict) (resolve : Target → Resolved)
+    (addrString : List UInt8 → String) (resolveC : String → String → Tie.ValidatePacket.UAddr × Option String)
+    (split : List UInt8 → List UInt8) (ensure : Option String → String → String → Option String)
+    (validator : List UInt8 → Option String) (ipOf : Tie.ValidatePacket.UAddr → List UInt8) : Prop where
+  split_eq : ∀ t, split t = match splitAddrLen t with | none => [] | some n => t.take n
+  undecodable : ∀ a, decode a = .ok none → (resolveC "udp" (addrString a)).2 ≠ none
+  resolve_fail : ∀ a tgt, decode a = .ok (some tgt) → resolve tgt = .fail → (resolveC "udp" (addrString a)).2 ≠ none
+  resolve_ip : ∀ a tgt ip, decode a = .ok (some tgt) → resolve tgt = .ip ip →
+      (resolveC "udp" (addrString a)).2 = none ∧ ipOf (resolveC "udp" (addrString a)).1 = ip
+  verdict_ok : ∀ ip, validate ip = .ok → validator ip = none
+  verdict_bad : ∀ ip, validate ip ≠ .ok → validator ip ≠ none ∧
+      ensure (validator ip) "ERR_ADDRESS_INVALID" "invalid address" = some (verdictStatus (validate ip))
+
+/-- **code_validatePacket_refines_model**: the translated `packetHandler.validatePacket` (service/udp.go) and the
+    model's `validatePacket` decide alike on every plaintext, for all collaborators that agree (`Agrees`): the code never
+    panics; it reports the status the model reports; and where the model accepts, the code returns the same payload
+    (the text after the address header) and an address whose IP is the one the model validated. -/
+theorem code_validatePacket_refines_model (validate : List UInt8 → IP.Verdict) (resolve : Target → Resolved)
+    (addrString : List UInt8 → String) (resolveC : String → String → Tie.ValidatePacket.UAddr × Option String)
+    (split : List UInt8 → List UInt8) (ensure : Option String → String → String → Option String)
+    (validator : List UInt8 → Option String) (ipOf : Tie.ValidatePacket.UAddr → List UInt8)
+    (ag : Agrees validate resolve addrString resolveC split ensure validator ipOf)
+    (h : Gen.Code.packetHandler) (text : List UInt8) :
+    ∃ payload addr st, Gen.Code.packetHandler.validatePacket addrString resolveC split ensure validator ipOf h text =
+        some (h, payload, addr, st) ∧
+      (match validatePacket validate resolve text with
+       | .ok (.error e) => st = some e
+       | .ok (.ok (pl, ip, _)) => st = none ∧ payload = pl ∧ ipOf addr = ip
+       | .error _ => False) := by
+  have hpre : (split text).length ≤ text.length := by
+    rw [ag.split_eq]; cases splitAddrLen text <;> simp [List.length_take] <;> omega
+  rw [Tie.ValidatePacket.validatePacket_tie _ _ _ _ _ _ _ _ hpre]
+  refine ⟨_, _, _, rfl, ?_⟩
+  unfold Tie.ValidatePacket.decide' validatePacket
+  cases hs : splitAddrLen text with
+  | none => simp [ag.split_eq, hs, pure, Except.pure]
+  | some n =>
+    obtain ⟨hle, hn, _⟩ := splitAddrLen_bounds text n hs
+    obtain ⟨r, hr⟩ := decode_no_panic text n hs
+    have hsp : split text = text.take n := by rw [ag.split_eq, hs]
+    have hne : text.take n ≠ [] := by
+      intro h0
+      have h1 : (text.take n).length = n := by rw [List.length_take]; omega
+      rw [h0] at h1; simp at h1; omega
+    have hlen : (text.take n).length = n := by rw [List.length_take]; omega
+    simp only [bind, Except.bind, pure, Except.pure]
+    rw [slice_ok _ _ _ _ (by omega)]
+    simp only [List.drop_zero, hr, hsp, hne, if_false, hlen]
+    cases r with
+    | none => simp [ag.undecodable _ hr]
+    | some tgt =>
+      simp only []
+      cases hres : resolve tgt with
+      | fail => simp [ag.resolve_fail _ _ hr hres]
+      | ip ip =>
+        obtain ⟨h2, h3⟩ := ag.resolve_ip _ _ _ hr hres
+        simp only [h2, h3]
+        cases hv : validate ip with
+        | invalid =>
+          obtain ⟨hb1, hb2⟩ := ag.verdict_bad ip (by rw [hv]; simp)
+          simp [hb1, hb2, hv, verdictStatus]
+        | priv =>
+          obtain ⟨hb1, hb2⟩ := ag.verdict_bad ip (by rw [hv]; simp)
+          simp [hb1, hb2, hv, verdictStatus]
+        | ok =>
+          simp only [ag.verdict_ok ip hv]
+          rw [slice_ok _ _ _ _ ⟨hle, Nat.le_refl _⟩]
+          simp [h3]
+
+/-- **code_association_only_for_allowed_destination**: whatever its collaborators do, when the translated
+    `validatePacket` reports no error — the only case in which `Handle` goes on to create or use an association — the
+    target it returns is the resolver's answer for the address header, the stored validator accepted that target's IP,
+    and the payload is the text after the header. -/
+theorem code_association_only_for_allowed_destination
+    (addrString : List UInt8 → String) (resolveC : String → String → Tie.ValidatePacket.UAddr × Option String)
+    (split : List UInt8 → List UInt8) (ensure : Option String → String → String → Option String)
+    (validator : List UInt8 → Option String) (ipOf : Tie.ValidatePacket.UAddr → List UInt8)
+    (h h' : Gen.Code.packetHandler) (text payload : List UInt8) (addr : Tie.ValidatePacket.UAddr)
+    (hpre : (split text).length ≤ text.length)
+    (hens : ∀ e a b, e ≠ none → ensure e a b ≠ none)
+    (hok : Gen.Code.packetHandler.validatePacket addrString resolveC split ensure validator ipOf h text = some (h', payload, addr, none)) :
+    split text ≠ [] ∧ resolveC "udp" (addrString (split text)) = (addr, none) ∧ validator (ipOf addr) = none ∧
+      payload = text.drop (split text).length := by
+  rw [Tie.ValidatePacket.validatePacket_tie _ _ _ _ _ _ _ _ hpre] at hok
+  unfold Tie.ValidatePacket.decide' at hok
+  by_cases h1 : split text = []
+  · simp [h1] at hok
+  · by_cases h2 : (resolveC "udp" (addrString (split text))).2 = none
+    · by_cases h3 : validator (ipOf (resolveC "udp" (addrString (split text))).1) = none
+      · simp [h1, h2, h3] at hok
+        obtain ⟨_, hp, ha⟩ := hok
+        refine ⟨h1, ?_, ?_, hp.symm⟩
+        · rw [← ha]; exact Prod.ext rfl h2
+        · rw [← ha]; exact h3
+      · simp [h1, h2, h3] at hok
+        exact absurd hok.2.2.2 (hens _ _ _ h3)
+    · simp [h1, h2] at hok
+
+/-- non-vacuity of `Agrees`: collaborators that agree exist (a resolver that maps every decodable header to the nil IP, a
+    validator that accepts exactly the nil IP) -/
+example : Agrees (fun ip => if ip = [] then .ok else .invalid) (fun _ => .ip [])
+    (fun a => match decode a with | .ok none => "bad" | _ => "good")
+    (fun _ s => if s = "bad" then (⟨0⟩, some "no such host") else (⟨0⟩, none))
+    (fun t => match splitAddrLen t with | none => [] | some n => t.take n)
+    (fun e _ _ => if e = none then none else some "ERR_ADDRESS_INVALID")
+    (fun ip => if ip = [] then none else some "invalid") (fun _ => []) where
+  split_eq := fun _ => rfl
+  undecodable := fun a h => by simp [h]
+  resolve_fail := fun a tgt h hr => by simp at hr
+  resolve_ip := fun a tgt ip h hr => by simp [h]; simpa using hr
+  verdict_ok := fun ip h => by by_cases hi : ip = [] <;> simp_all
+  verdict_bad := fun ip h => by by_cases hi : ip = [] <;> simp_all [verdictStatus]
 
 end OutlineModel.Props.C04
